@@ -14,5 +14,7 @@ CONSTANTS
   MsgsSet = {0, 2, 3}
   MaxBatch = 2
   TrackLast = TRUE
+  UseSet = TRUE
+  UseReopen = TRUE
   UseReaders = TRUE
 CHECK_DEADLOCK FALSE
